@@ -89,3 +89,93 @@ Example C09_nonvacuous :
   /\ frame_ok prog_pf = true /\ In F_RES_BUS (writes prog_pf).
 Proof. exact nonvacuous. Qed.
 Print Assumptions C09_nonvacuous.
+
+(* ---- short circuit, three-phase power flow, state estimation (they occur in the histories: hop_ok = the calculation
+   leaves the auxiliary tracking state empty, true of all sixteen modelled programs).
+   allkinds (first argument true) = every kind of generating element whose pd2ppc lookup is read has an in-service element,
+   so that _build_gen_lookups rewrites the entry; these three calculations do not clear net._pd2ppc_lookups. *)
+Theorem C09_all_programs_may_occur_in_histories :
+  forallb leaves_clean [prog_pf; prog_pf_results; prog_opf; prog_opf_old; prog_sc true false; prog_sc false false;
+                        prog_sc true true; prog_sc false true; prog_pf3ph true; prog_pf3ph false; prog_est true false;
+                        prog_est false false; prog_est true true; prog_est false true; prog_est_bb true; prog_est_bb false] = true.
+Proof. exact leaves_clean_all. Qed.
+Print Assumptions C09_all_programs_may_occur_in_histories.
+
+(* PARTIAL (guard allkinds): after ANY history calc_sc gives on everything it computes (options, is_elements, lookups, ppc,
+   res_*_sc) what it gives from any cache state with an empty tracking state; the power flow result tables pass through *)
+Theorem C09_history_independent_sc_partial : forall sem ops T C C0,
+  Forall hop_ok ops -> C F_AUX = sem FN_CLEAN [] -> C0 F_AUX = sem FN_CLEAN [] ->
+  forall c, In c [F_OPTIONS; F_RES_SC; F_IS_ELEMENTS; F_SWITCH_INFO; F_LOOKUPS; F_LK_GEN; F_ISOLATED; F_PPC] ->
+  exec sem (fst (hrun sem ops T C)) (prog_sc true false) (snd (hrun sem ops T C)) c =
+  exec sem (fst (hrun sem ops T C)) (prog_sc true false) C0 c.
+Proof. exact sc_history_independent. Qed.
+Print Assumptions C09_history_independent_sc_partial.
+
+(* PARTIAL (guard allkinds): runpp_3ph, every field it writes *)
+Theorem C09_history_independent_pf3ph_partial : forall sem ops T C C0,
+  Forall hop_ok ops -> C F_AUX = sem FN_CLEAN [] -> C0 F_AUX = sem FN_CLEAN [] ->
+  forall c, In c (writes (prog_pf3ph true)) ->
+  exec sem (fst (hrun sem ops T C)) (prog_pf3ph true) (snd (hrun sem ops T C)) c =
+  exec sem (fst (hrun sem ops T C)) (prog_pf3ph true) C0 c.
+Proof. intros sem ops T C C0. apply history_independent. exact frame_ok_pf3ph. Qed.
+Print Assumptions C09_history_independent_pf3ph_partial.
+
+(* PARTIAL (guard allkinds): estimate with a start vector that is not taken from previous results, all buses fused / with
+   the bus-bus switch substitution (which begins with complete power flows) *)
+Theorem C09_history_independent_estimate_partial : forall sem ops T C C0,
+  Forall hop_ok ops -> C F_AUX = sem FN_CLEAN [] -> C0 F_AUX = sem FN_CLEAN [] ->
+  (forall c, In c [F_OPTIONS; F_IS_ELEMENTS; F_SWITCH_INFO; F_LOOKUPS; F_LK_GEN; F_ISOLATED; F_PPC; F_RES_EST] ->
+     exec sem (fst (hrun sem ops T C)) (prog_est true false) (snd (hrun sem ops T C)) c =
+     exec sem (fst (hrun sem ops T C)) (prog_est true false) C0 c) /\
+  (forall c, In c (writes (prog_est_bb true)) ->
+     exec sem (fst (hrun sem ops T C)) (prog_est_bb true) (snd (hrun sem ops T C)) c =
+     exec sem (fst (hrun sem ops T C)) (prog_est_bb true) C0 c).
+Proof.
+  intros sem ops T C C0 Fo HC HC0. split; intros c Hc;
+    [now apply est_history_independent | now apply est_bb_history_independent].
+Qed.
+Print Assumptions C09_history_independent_estimate_partial.
+
+(* the full statement (without the guard) is false of the model: a stale generator-type lookup is read *)
+Theorem C09_stale_gen_lookup_refuted :
+  exists sem T C1 C2, C1 F_AUX = C2 F_AUX /\
+    exec sem T (prog_sc false false) C1 F_RES_SC <> exec sem T (prog_sc false false) C2 F_RES_SC /\
+    exec sem T (prog_pf3ph false) C1 F_RES_3PH <> exec sem T (prog_pf3ph false) C2 F_RES_3PH /\
+    exec sem T (prog_est false false) C1 F_RES_EST <> exec sem T (prog_est false false) C2 F_RES_EST.
+Proof. exact stale_gen_lookup_depends. Qed.
+Print Assumptions C09_stale_gen_lookup_refuted.
+
+(* the read-before-write sets of the new programs (compared with the access log of the real code, lookups entry-wise) *)
+Theorem C09_read_before_write_sets_sc_3ph_est :
+  rbw (prog_sc true false) = [F_AUX; F_RES_OTHER] /\ rbw (prog_sc false false) = [F_AUX; F_LK_GEN; F_RES_OTHER] /\
+  rbw (sc_front true false) = [F_AUX] /\
+  rbw (prog_sc true true) = [F_OPTIONS; F_AUX; F_RES_BUS; F_RES_OTHER; F_RES_OTHER] /\
+  rbw (prog_pf3ph true) = [F_AUX] /\ rbw (prog_pf3ph false) = [F_LK_GEN; F_AUX] /\
+  rbw (prog_est true false) = [] /\ rbw (prog_est false false) = [F_LK_GEN] /\
+  rbw (prog_est true true) = [F_RES_BUS; F_RES_BUS; F_RES_OTHER] /\
+  rbw (prog_est_bb true) = [F_AUX] /\ rbw (prog_est_bb false) = [F_AUX; F_LK_GEN].
+Proof. exact rbw_sets_x. Qed.
+Print Assumptions C09_read_before_write_sets_sc_3ph_est.
+
+(* FULL: start values at auxiliary buses (xward, trafo3w star point): every entry handed to the solver is a number for ALL
+   previous result tables, and it is the internal voltage of the element where that exists, else the start of its bus *)
+Theorem C09_start_vector_aux_defined : forall bs axs, aux_wf bs axs = true -> defined (start_vector_aux bs axs) = true.
+Proof. exact start_vector_aux_defined. Qed.
+Print Assumptions C09_start_vector_aux_defined.
+
+Theorem C09_aux_start_spec : forall bs a b, nth_error bs (a_bus a) = Some b -> a_set_vm a = None ->
+  (forall v, a_prev_vm a = Some v -> aux_vm bs a = Some v) /\
+  (a_prev_vm a = None -> aux_vm bs a = init_vm b) /\
+  (forall v, a_prev_va a = Some v -> aux_va bs a = Some v) /\
+  (a_prev_va a = None -> aux_va bs a = init_va b).
+Proof. exact aux_start_spec. Qed.
+Print Assumptions C09_aux_start_spec.
+
+Example C09_nonvacuous_aux :
+  start_vector_aux feeder
+    [ {| a_prev_vm := None; a_prev_va := None; a_bus := 2%nat; a_set_vm := None; a_kept := true |};
+      {| a_prev_vm := Some (101 # 100); a_prev_va := Some (-3 # 2); a_bus := 1%nat; a_set_vm := Some (51 # 50); a_kept := true |};
+      {| a_prev_vm := None; a_prev_va := None; a_bus := 0%nat; a_set_vm := None; a_kept := false |} ]
+  = [(Some 1, Some 0); (Some (100000328 # 100000000), Some 0); (Some 1, Some 0); (Some 1, Some 0); (Some (51 # 50), Some (-3 # 2))].
+Proof. exact nonvacuous_aux. Qed.
+Print Assumptions C09_nonvacuous_aux.
